@@ -1234,7 +1234,7 @@ func (m *membershipAllower) membershipAllowedSelf() error { // nolint: gocyclo
 
 		// A user that is not in the room is allowed to join if the room
 		// join rules are "public".
-		if m.oldMember.Membership == spec.Leave && m.joinRule.JoinRule == spec.Public {
+		if (m.oldMember.Membership == spec.Leave || m.oldMember.Membership == spec.Knock) && m.joinRule.JoinRule == spec.Public {
 			return nil
 		}
 
